@@ -12,6 +12,70 @@ Definition sph_raw_of_fields (l : list Z) : sph :=
   {| ver := nth 0 l 0; ptype := nth 1 l 0; shf := nth 2 l 0; apid := nth 3 l 0;
      sflags := nth 4 l 0; scount := nth 5 l 0; dlen := nth 6 l 0 |}.
 
+
+(* ---- histories (ops 120-124) ---- *)
+Definition res_list_b (r : res bytes) : list Z :=
+  match r with Ok b => 0 :: b | Err e => [1; err_code e] end.
+Definition res_list_eq (r : res (bool * bool)) : list Z :=
+  match r with Ok (e1, e2) => [0; b2z e1; b2z e2; b2z e1; b2z e2] | Err e => [1; err_code e] end.
+
+(* one operation of a header history: [k; v]; 6, 7, 11, 12, 13 are the same assignments made
+   through the public packet_id / packet_seq_control sub-objects *)
+Definition sph_op_of (l : list Z) : sph_op :=
+  match l with
+  | 0 :: v :: _ => SoApid v | 1 :: v :: _ => SoCount v | 2 :: v :: _ => SoFlags v
+  | 3 :: v :: _ => SoPtype v | 4 :: v :: _ => SoShf v | 5 :: v :: _ => SoDlen v
+  | 6 :: v :: _ => SoApid v | 7 :: v :: _ => SoCount v
+  | 8 :: _ => SoPack | 10 :: _ => SoEqFresh
+  | 11 :: v :: _ => SoPtype v | 12 :: v :: _ => SoShf v | 13 :: v :: _ => SoFlags v
+  | _ => SoObserve
+  end.
+Definition sph_view (h : sph) : list Z :=
+  sph_fields h ++ [sph_packet_len h; pid_raw (sph_pid h); psc_raw (sph_psc h); CCSDS_HEADER_LEN].
+Definition sph_row (h : sph) (o : sph_op) : list Z :=
+  match o with
+  | SoPack => res_list_b (sph_pack h)
+  | SoEqFresh => res_list_eq (sph_eq_fresh h)
+  | _ => sph_view h
+  end.
+Fixpoint run_sph_history (h : sph) (ops : args) : args :=
+  match ops with
+  | [] => []
+  | o :: r => let h' := sph_apply h (sph_op_of o) in sph_row h' (sph_op_of o) :: run_sph_history h' r
+  end.
+(* construction path: 0 constructor, 1 from_composite_fields, 2 unpack(bytearray(pack()) ++ suffix) *)
+Definition sph_build (kind : Z) (l : list Z) : res sph :=
+  if kind =? 1 then
+    sph_from_composite (nth 0 l 0) (nth 1 l 0) (nth 2 l 0) (nth 3 l 0) (nth 4 l 0) (nth 5 l 0) (nth 6 l 0)
+  else if kind =? 2 then
+    do h <- sph_of_args l; do b <- sph_pack h; sph_unpack (b ++ [165; 90])
+  else sph_of_args l.
+(* the caller's PacketId / PacketSeqCtrl handed to from_composite_fields, after the history *)
+Definition caller_row (l : list Z) : list Z := [nth 0 l 0; nth 4 l 0; nth 1 l 0; nth 5 l 0; nth 2 l 0].
+
+(* SpacePacket histories: [20 + k; v] = header operation k; [30; has; octets] sec_header := ;
+   [31; has; octets] user_data := ; [32] pack; [33] eq with a fresh packet; else observe *)
+Definition spkt_op_of (l : list Z) : spkt_op :=
+  match l with
+  | 30 :: r => SpSetSec (opt_bytes r)
+  | 31 :: r => SpSetUd (opt_bytes r)
+  | 32 :: _ => SpPack
+  | 33 :: _ => SpEqFresh
+  | k :: r => if (20 <=? k) && (k <? 30) then SpHdr (sph_op_of (k - 20 :: r)) else SpObserve
+  | [] => SpObserve
+  end.
+Definition spkt_row (p : spkt) (o : spkt_op) : list Z :=
+  match o with
+  | SpPack => res_list_b (spkt_pack p)
+  | SpEqFresh => res_list_eq (spkt_eq_fresh p)
+  | _ => [apid (sp_h p); scount (sp_h p); shf (sp_h p); dlen (sp_h p)]
+  end.
+Fixpoint run_spkt_history (p : spkt) (ops : args) : args :=
+  match ops with
+  | [] => []
+  | o :: r => let p' := spkt_apply p (spkt_op_of o) in spkt_row p' (spkt_op_of o) :: run_spkt_history p' r
+  end.
+
 Definition run_sph (op : Z) (a : args) : args :=
   match op with
   | 100 => ret (fun h => [sph_fields h; [sph_packet_len h]]) (sph_of_args (lst 0 a))
@@ -31,6 +95,45 @@ Definition run_sph (op : Z) (a : args) : args :=
              (do h <- sph_of_args (lst 0 a);
               space_packet_pack h (opt_bytes (lst 1 a)) (opt_bytes (lst 2 a)))
   | 113 => ret (fun b => [b]) (do h <- sph_unpack (lst 0 a); sph_pack h)
+  (* SpacePacket.pack twice (parts given as bytes or bytearray: same octets) *)
+  | 114 => ret (fun b => [b; b; [1]])
+             (do h <- sph_of_args (lst 0 a);
+              space_packet_pack h (opt_bytes (lst 1 a)) (opt_bytes (lst 2 a)))
+  (* header history: a0 = constructor arguments, a1 = [construction path], a2.. = operations *)
+  | 120 => ret (fun h => run_sph_history h (skipn 2 a) ++ [caller_row (lst 0 a)])
+             (sph_build (int 1 0 a) (lst 0 a))
+  (* unpack from a (long) bytearray that is overwritten afterwards, observed twice *)
+  | 121 => ret (fun h => [sph_view h; res_list_b (sph_pack h); sph_view h])
+             (sph_unpack (lst 0 a))
+  (* two headers decoded in a row, both re-inspected afterwards *)
+  | 122 => ret (fun r => [sph_view (fst r); sph_view (snd r); sph_view (fst r);
+                          res_list_eq (do e <- sph_eq_res (fst r) (snd r);
+                                       do e' <- sph_eq_res (snd r) (fst r); Ok (e, e'))])
+             (do x <- sph_unpack (lst 0 a); do y <- sph_unpack (lst 1 a); Ok (x, y))
+  (* SpacePacket history: a0 = header, a1 = sec, a2 = user data, a3 = flags (adapter only), a4.. = ops *)
+  | 123 => ret (fun h => run_spkt_history {| sp_h := h; sp_sec := opt_bytes (lst 1 a);
+                                             sp_ud := opt_bytes (lst 2 a) |} (skipn 4 a) ++ [[1]])
+             (sph_of_args (lst 0 a))
+  (* PacketId / PacketSeqCtrl objects: a0 = [kind; ...]; attribute assignments then raw() and == *)
+  | 124 => ret (fun r => [[pid_raw (fst r); b2z (pid_raw (fst r) =? pid_raw (snd r));
+                           b2z (pid_raw (snd r) =? pid_raw (fst r)); 0]])
+             (do p <- (if int 0 0 a =? 1 then pid_from_raw (int 0 1 a)
+                       else if int 0 0 a =? 2 then pid_new PT_TM 0 0
+                       else pid_new (int 0 1 a) (int 0 2 a) (int 0 3 a));
+              let p' := {| pid_ptype := if int 1 0 a =? 0 then pid_ptype p else int 1 1 a;
+                           pid_shf := if int 1 2 a =? 0 then pid_shf p else int 1 3 a;
+                           pid_apid := if int 1 4 a =? 0 then pid_apid p else int 1 5 a |} in
+              do q <- pid_new (int 2 0 a) (int 2 1 a) (int 2 2 a);
+              Ok (p', q))
+  | 125 => ret (fun r => [[psc_raw (fst r); b2z (psc_raw (fst r) =? psc_raw (snd r));
+                           b2z (psc_raw (snd r) =? psc_raw (fst r)); 0]])
+             (do p <- (if int 0 0 a =? 1 then psc_from_raw (int 0 1 a)
+                       else if int 0 0 a =? 2 then psc_new SF_CONT 0
+                       else psc_new (int 0 1 a) (int 0 2 a));
+              let p' := {| psc_flags := if int 1 0 a =? 0 then psc_flags p else int 1 1 a;
+                           psc_count := if int 1 2 a =? 0 then psc_count p else int 1 3 a |} in
+              do q <- psc_new (int 2 0 a) (int 2 1 a);
+              Ok (p', q))
   (* Spec side (independent oracle): the layout of a field tuple *)
   | 150 => [[0]; sph_layout (sph_raw_of_fields (lst 0 a))]
   | _ => [[1; 97]]
